@@ -376,7 +376,12 @@ func Worker(t *testing.T) {
 			os.WriteFile(fmt.Sprintf("%s.%d", dp, run), []byte(strings.Join(o.Log, "\n")+"\n"), 0o644)
 		}
 		if logHashes {
-			fmt.Fprintf(&allHashes, "%d:%s:%s;", run, o.LogHash, strings.Join(sigs(o), ","))
+			if o.Witness != "" {
+				// runs whose course depends on Go map order are compared only under equal witnesses (in-process re-check)
+				res.Stats["determinism_runs_set_aside_map_order"]++
+			} else {
+				fmt.Fprintf(&allHashes, "%d:%s:%s;", run, o.LogHash, strings.Join(sigs(o), ","))
+			}
 		}
 		if o.Evals > 0 {
 			res.Evals += o.Evals
